@@ -36,14 +36,22 @@ def check_upgraded(path, before_rows, before_bytes, where, need_backup=True):
         raise Violation("%s: pre-existing records changed: %r" % (where, {t: (before_rows.get(t), after.get(t)) for t in OLD_TABLES if before_rows.get(t) != after.get(t)}),
                         sig="C20 records lost or changed by the upgrade")
     if need_backup:
-        bk = path + "-backup-v1"
-        if not os.path.exists(bk):
-            raise Violation("%s: no backup file %s" % (where, os.path.basename(bk)), sig="C20 backup missing")
-        with open(bk, "rb") as f:
-            data = f.read()
-        if data != before_bytes:
-            raise Violation("%s: the backup file is not a byte-identical copy of the pre-upgrade file (%d vs %d bytes)"
-                            % (where, len(data), len(before_bytes)), sig="C20 backup not byte-identical")
+        # the statement asks for a byte-identical copy "next to" the file; its name is the implementation's choice
+        d = os.path.dirname(path)
+        others = [fn for fn in sorted(os.listdir(d)) if os.path.join(d, fn) != path and os.path.isfile(os.path.join(d, fn))
+                  and not fn.endswith((".log", "-journal", "-wal", "-shm"))]
+        sizes = {}
+        for fn in others:
+            with open(os.path.join(d, fn), "rb") as f:
+                data = f.read()
+            if data == before_bytes:
+                break
+            sizes[fn] = len(data)
+        else:
+            if not others:
+                raise Violation("%s: no backup copy of the old file next to it" % (where,), sig="C20 backup missing")
+            raise Violation("%s: no file next to the database is a byte-identical copy of the pre-upgrade file (%d bytes); found %r"
+                            % (where, len(before_bytes), sizes), sig="C20 backup not byte-identical")
 
 
 def _upgrade_case(args):
